@@ -10,34 +10,81 @@ Section Main.
   Variable linit : op -> local.
   Variable mstep : op -> local -> state -> local * state.
   Variable fin : op -> local -> option ret.
+  Variable waits : op -> local -> bool.
+  Variable wstep : op -> local -> local.
   Variable kind : op -> lkind.
   Variable s0 : state.
 
   Hypothesis Hshared : shared_readonly state op local mstep kind.
   Hypothesis Hnone : none_stateless state op local mstep kind.
+  Hypothesis Hwexcl : wait_excl op local waits kind.
+  Variable resumable : op -> local -> Prop.
+  Hypothesis Hres : resumable_inv state op ret local linit mstep fin waits wstep resumable.
 
   (* refinement: the lock-based object has exactly the client-visible behaviours of the atomic object *)
-  Theorem locked_refines_atomic : forall tr c,
-    exec state op ret local linit mstep fin kind s0 tr c ->
-    exists atr a, aexec state op ret local linit mstep fin s0 atr a /\ ahist op ret atr = hist op ret tr.
+  Theorem locked_refines_atomic_w : forall tr c,
+    exec state op ret local linit mstep fin waits wstep kind s0 tr c ->
+    exists atr a, aexec state op ret local linit mstep fin waits wstep s0 atr a /\
+                  ahist op ret atr = hist op ret tr.
   Proof.
     intros tr c Hex.
-    destruct (simulation state op ret local linit mstep fin kind s0 Hshared Hnone tr c Hex) as [a [Ha _]].
+    destruct (simulation state op ret local linit mstep fin waits wstep kind s0 Hshared Hnone Hwexcl
+                resumable Hres tr c Hex) as [a [Ha _]].
     exists (abs op ret tr), a. split; auto. apply hist_abs.
   Qed.
 
-  Theorem locked_atomic_linearizable : forall tr c,
-    exec state op ret local linit mstep fin kind s0 tr c ->
-    linearizable state op ret local linit mstep fin s0 (hist op ret tr).
+  Theorem locked_atomic_linearizable_w : forall tr c,
+    exec state op ret local linit mstep fin waits wstep kind s0 tr c ->
+    linearizable state op ret local linit mstep fin waits wstep s0 (hist op ret tr).
   Proof.
-    intros tr c Hex. destruct (locked_refines_atomic tr c Hex) as [atr [a [Ha Hh]]].
+    intros tr c Hex. destruct (locked_refines_atomic_w tr c Hex) as [atr [a [Ha Hh]]].
     rewrite <- Hh. eapply atomic_linearizable; eauto.
   Qed.
 
-  Theorem locked_race_free : forall tr c,
-    exec state op ret local linit mstep fin kind s0 tr c -> ~ race state op ret local fin kind c.
-  Proof. exact (race_free state op ret local linit mstep fin kind s0 Hshared Hnone). Qed.
+  Theorem locked_race_free_w : forall tr c,
+    exec state op ret local linit mstep fin waits wstep kind s0 tr c ->
+    ~ race state op ret local fin waits kind c.
+  Proof.
+    exact (race_free state op ret local linit mstep fin waits wstep kind s0 Hshared Hnone Hwexcl resumable Hres).
+  Qed.
 End Main.
+
+(* the special case of bodies that never call Cond.Wait (every component except DataSemaphore.Acquire) *)
+Section MainNoWait.
+  Variables state op ret local : Type.
+  Variable linit : op -> local.
+  Variable mstep : op -> local -> state -> local * state.
+  Variable fin : op -> local -> option ret.
+  Variable kind : op -> lkind.
+  Variable s0 : state.
+
+  Definition nowait (_ : op) (_ : local) : bool := false.
+  Definition nowstep (_ : op) (l : local) : local := l.
+
+  Hypothesis Hshared : shared_readonly state op local mstep kind.
+  Hypothesis Hnone : none_stateless state op local mstep kind.
+
+  Let Hres := nowait_resumable state op ret local linit mstep fin nowait nowstep (fun _ _ => eq_refl).
+  Let Hwx := nowait_wait_excl op local nowait (fun _ _ => eq_refl) kind.
+
+  Theorem locked_refines_atomic : forall tr c,
+    exec state op ret local linit mstep fin nowait nowstep kind s0 tr c ->
+    exists atr a, aexec state op ret local linit mstep fin nowait nowstep s0 atr a /\
+                  ahist op ret atr = hist op ret tr.
+  Proof. exact (locked_refines_atomic_w _ _ _ _ _ _ _ _ _ _ _ Hshared Hnone Hwx _ Hres). Qed.
+
+  Theorem locked_atomic_linearizable : forall tr c,
+    exec state op ret local linit mstep fin nowait nowstep kind s0 tr c ->
+    linearizable state op ret local linit mstep fin nowait nowstep s0 (hist op ret tr).
+  Proof. exact (locked_atomic_linearizable_w _ _ _ _ _ _ _ _ _ _ _ Hshared Hnone Hwx _ Hres). Qed.
+
+  Theorem locked_race_free : forall tr c,
+    exec state op ret local linit mstep fin nowait nowstep kind s0 tr c ->
+    ~ race state op ret local fin nowait kind c.
+  Proof. exact (locked_race_free_w _ _ _ _ _ _ _ _ _ _ _ Hshared Hnone Hwx _ Hres). Qed.
+End MainNoWait.
+Arguments nowait {op local}.
+Arguments nowstep {op local}.
 
 (* ------------------------------------------------------------------ a concrete object *)
 Module Counter.
@@ -63,8 +110,8 @@ Module Counter.
   Lemma ok_none : none_stateless nat cop (nat * nat) cmstep kind_ok.
   Proof. intros o Hk. destruct o; discriminate. Qed.
 
-  Notation cexec := (exec nat cop nat (nat * nat) clinit cmstep cfin).
-  Notation cstep := (step nat cop nat (nat * nat) clinit cmstep cfin).
+  Notation cexec := (exec nat cop nat (nat * nat) clinit cmstep cfin nowait nowstep).
+  Notation cstep := (step nat cop nat (nat * nat) clinit cmstep cfin nowait nowstep).
   Notation cupd := (upd cop nat (nat * nat)).
   Notation CInv := (Inv cop nat). Notation CAcq := (Acq cop nat). Notation CBody := (Body cop nat).
   Notation CRel := (Rel cop nat). Notation CRet := (Ret cop nat).
@@ -91,32 +138,31 @@ Module Counter.
       + eapply s_acq_shared; [reflexivity|reflexivity|].
         intros t [o [l [H Hk]]]; simpl in H; unfold upd in H.
         destruct t as [|[|[|t]]]; simpl in H; try discriminate; inversion H; subst; discriminate.
-      + eapply s_body; [reflexivity|reflexivity|reflexivity].
+      + eapply s_body; [reflexivity|reflexivity|reflexivity|reflexivity].
     - split; eexists _, _; reflexivity.
   Qed.
 
   (* sequential behaviour of the two operations *)
-  Lemma seq_read : forall s s' r, seq_exec nat cop nat (nat * nat) clinit cmstep cfin ORead s s' r -> s' = s /\ r = s.
+  Lemma seq_read : forall s s' r,
+    seq_exec nat cop nat (nat * nat) clinit cmstep cfin nowait nowstep ORead s s' r -> s' = s /\ r = s.
   Proof.
     intros s s' r [l' [Hrun Hfin]].
-    inversion Hrun as [|? ? l1 s1 ? ? Hf Hm Hrun1]; subst.
-    - discriminate.
-    - simpl in Hm. inversion Hm; subst.
-      inversion Hrun1 as [|? ? l2 s2 ? ? Hf2 Hm2 Hrun2]; subst.
-      + simpl in Hfin. inversion Hfin; auto.
-      + discriminate.
+    inversion Hrun as [|? ? l1 s1 ? ? Hf Hw Hm Hrun1|? ? ? ? Hf Hw Hrun1]; subst; [discriminate| |discriminate].
+    simpl in Hm. inversion Hm; subst.
+    inversion Hrun1 as [|? ? l2 s2 ? ? Hf2 Hw2 Hm2 Hrun2|? ? ? ? Hf2 Hw2 Hrun2]; subst; [|discriminate|discriminate].
+    simpl in Hfin. inversion Hfin; auto.
   Qed.
 
-  Lemma seq_incr2 : forall s s' r, seq_exec nat cop nat (nat * nat) clinit cmstep cfin OIncr2 s s' r -> s' = S (S s) /\ r = 0.
+  Lemma seq_incr2 : forall s s' r,
+    seq_exec nat cop nat (nat * nat) clinit cmstep cfin nowait nowstep OIncr2 s s' r -> s' = S (S s) /\ r = 0.
   Proof.
     intros s s' r [l' [Hrun Hfin]].
-    inversion Hrun as [|? ? l1 s1 ? ? Hf Hm Hrun1]; subst; [discriminate|].
+    inversion Hrun as [|? ? l1 s1 ? ? Hf Hw Hm Hrun1|? ? ? ? Hf Hw Hrun1]; subst; [discriminate| |discriminate].
     simpl in Hm; inversion Hm; subst.
-    inversion Hrun1 as [|? ? l2 s2 ? ? Hf2 Hm2 Hrun2]; subst; [discriminate|].
+    inversion Hrun1 as [|? ? l2 s2 ? ? Hf2 Hw2 Hm2 Hrun2|? ? ? ? Hf2 Hw2 Hrun2]; subst; [discriminate| |discriminate].
     simpl in Hm2; inversion Hm2; subst.
-    inversion Hrun2 as [|? ? l3 s3 ? ? Hf3 Hm3 Hrun3]; subst.
-    - simpl in Hfin; inversion Hfin; auto.
-    - discriminate.
+    inversion Hrun2 as [|? ? l3 s3 ? ? Hf3 Hw3 Hm3 Hrun3|? ? ? ? Hf3 Hw3 Hrun3]; subst; [|discriminate|discriminate].
+    simpl in Hfin; inversion Hfin; auto.
   Qed.
 
   (* the premise cannot be dropped: a reader WITHOUT the lock (kind_bad) between the two increments *)
@@ -132,12 +178,12 @@ Module Counter.
     - apply s_inv; reflexivity.
     - eapply s_acq_excl; [reflexivity|reflexivity|].
       intros t [o [l H]]; simpl in H; unfold upd in H. destruct t as [|[|t]]; simpl in H; discriminate.
-    - eapply s_body; [reflexivity|reflexivity|reflexivity].
+    - eapply s_body; [reflexivity|reflexivity|reflexivity|reflexivity].
     - apply s_inv; reflexivity.
-    - eapply s_body_none; [reflexivity|reflexivity|reflexivity|reflexivity].
+    - eapply s_body_none; [reflexivity|reflexivity|reflexivity|reflexivity|reflexivity].
     - eapply s_rel_none; [reflexivity|reflexivity|reflexivity].
     - eapply s_ret; reflexivity.
-    - eapply s_body; [reflexivity|reflexivity|reflexivity].
+    - eapply s_body; [reflexivity|reflexivity|reflexivity|reflexivity].
     - eapply s_rel; [reflexivity|reflexivity].
     - eapply s_ret; reflexivity.
   Qed.
@@ -148,7 +194,7 @@ Module Counter.
   Proof. reflexivity. Qed.
 
   Theorem unlocked_read_not_linearizable :
-    ~ linearizable nat cop nat (nat * nat) clinit cmstep cfin 0 bad_history.
+    ~ linearizable nat cop nat (nat * nat) clinit cmstep cfin nowait nowstep 0 bad_history.
   Proof.
     rewrite bad_history_eq. intros [S (Hnd & Hent & Hcomp & Hint & Hord & Hleg)].
     (* the two completed operations *)
@@ -169,7 +215,7 @@ Module Counter.
       rewrite ES in Hnd. unfold invs in *. rewrite map_app in Hnd; simpl in Hnd.
       apply NoDup_remove_2 in Hnd. apply Hnd. apply in_or_app; left. rewrite <- E1. now apply in_map. }
     (* A contains at most the Incr2 entry *)
-    assert (HlegA : forall s, seq_legal nat cop nat (nat * nat) clinit cmstep cfin s
+    assert (HlegA : forall s, seq_legal nat cop nat (nat * nat) clinit cmstep cfin nowait nowstep s
                        (map (fun e => (le_op _ _ e, le_ret _ _ e)) S) ->
                      (A = [] \/ exists e, A = [e] /\ le_op _ _ e = OIncr2)).
     { intros s _. destruct A as [|e A']; [now left|right].
